@@ -7,12 +7,13 @@ export GOFLAGS=-mod=mod GOPROXY=off GOSUMDB=off GOTOOLCHAIN=local CGO_ENABLED=1
 cmd="$1"; shift
 case "$cmd" in
  confirm)
-  diff="$1"; demo="$2"; ddir="$3"; shift 3
+  diff="$(realpath "$1")"; demo="$(realpath "$2")"; ddir="$3"; shift 3
+  [ -f "$diff" ] && [ -f "$demo" ] || { echo "confirm: patch or demonstration file not found: $1 $2"; exit 2; }
   wt=/tmp/confirm-$$
   git -C /repo worktree add --detach "$wt" HEAD >/dev/null 2>&1 || { echo "worktree failed"; exit 2; }
   trap 'git -C /repo worktree remove --force "$wt" >/dev/null 2>&1' EXIT
   cd "$wt"
-  cp "$demo" "$ddir/zz_demo_test.go"
+  cp "$demo" "$ddir/zz_demo_test.go" || { echo "confirm: cannot place the demonstration in $ddir"; exit 2; }
   echo "--- demo WITHOUT the change (must pass)"
   (cd "$ddir" && go test -vet=off -count=1 -run . "$@" . 2>&1 | tail -3)
   rm -f "$ddir/zz_demo_test.go"
